@@ -63,12 +63,18 @@ class _NameTransformerMiddleware(BlockMiddleware, abc.ABC):
     def transform_entry(self, entry: Entry, *args, **kwargs) -> Block:
         field: Field
         try:
-            for field in entry.fields:
-                if field.key in self.name_fields:
-                    field.value = self._transform_field_value(field.value)
-            return entry
+            # Transform all name fields before touching the entry, such that an invalid name
+            #   in one field leaves the entry (which the error block retains) as it was.
+            new_values = [
+                (field, self._transform_field_value(field.value))
+                for field in entry.fields
+                if field.key in self.name_fields
+            ]
         except InvalidNameError as e:
             return MiddlewareErrorBlock(entry, e)
+        for field, value in new_values:
+            field.value = value
+        return entry
 
 
 class SeparateCoAuthors(_NameTransformerMiddleware):
